@@ -96,7 +96,6 @@ func (r *RigS) targetOfStream(st *SimStream) int {
 func (r *RigS) onRegistration(st *SimStream) {
 	if r.pairTarget == nil {
 		r.pairTarget = map[int]int{}
-		r.domainStart = map[string]int{}
 	}
 	if st.PCh == replicateChan {
 		// by-dev-replicate-msg_<task>v0
@@ -108,7 +107,7 @@ func (r *RigS) onRegistration(st *SimStream) {
 		}
 		return
 	}
-	if r.plan.Prop != "C05" && r.plan.Prop != "C06" {
+	if r.plan.Prop != "C05" && r.plan.Prop != "C06" && r.plan.Prop != "C03" && r.plan.Prop != "C04" {
 		return
 	}
 	tgt := r.targetOfStream(st)
@@ -116,43 +115,42 @@ func (r *RigS) onRegistration(st *SimStream) {
 		r.s.Probe("stream_target_unknown")
 		return
 	}
-	key := fmt.Sprintf("%d/%d/%d", tgt, st.Coll, st.Shard)
-	log := r.mq.Logs[st.PCh]
-	if st.SeekNil {
-		// legitimate only if no live task holds a checkpoint for this stream
-		if poss, err := r.storePositions(); err == nil {
-			for _, p := range poss {
-				t := r.st.Tasks[p.TaskID]
-				if p.CollectionID != st.Coll || t == nil || t.Spec == nil || t.Spec.tgt() != tgt {
-					continue
-				}
-				if pi := p.Positions[st.PCh]; pi != nil && !pi.Dropped && pi.DataPair != nil {
-					if un := r.unacked(tgt, st.Coll, st.Shard, r.domainStart[key], len(log)); len(un) > 0 {
-						r.s.Violate("C05", "resume_ignores_checkpoint", "stream %s of task %s registered without a position although a checkpoint (msg id %d) exists; unacknowledged messages %v are skipped",
-							st.Key(), p.TaskID, MsgIDToSeq(pi.DataPair.Data), un)
-					}
-				}
-			}
-		}
-		r.domainStart[key] = st.Next0
-		r.s.Probe("reg_latest")
+	owner := r.ownerOf(tgt, st.Coll)
+	if owner == "" {
+		r.s.Probe("stream_owner_unknown")
 		return
 	}
-	if _, ok := r.domainStart[key]; !ok {
-		r.domainStart[key] = 0
+	key := domainKey(owner, tgt, st.Coll, st.Shard)
+	log := r.mq.Logs[st.PCh]
+	from, again := r.st.Domain[key]
+	if !again {
+		// first registration of this task's stream: the replication domain starts here (latest, or the given start position)
+		if st.SeekNil {
+			r.st.Domain[key] = st.Next0
+			r.s.Probe("reg_latest")
+			return
+		}
+		from = 0
 		for i, e := range log {
 			if e.Seq >= st.SeekSeq {
 				break
 			}
-			r.domainStart[key] = i + 1
+			from = i + 1
 		}
-		// first registration with a position (start position of a fresh / use_start collection): nothing of the collection may be skipped
+		r.st.Domain[key] = from
 	} else {
 		r.s.Probe("reg_resume")
+		if st.SeekNil {
+			// a stream that was replicated before comes back without a position: everything published meanwhile is skipped
+			if un := r.unacked(tgt, st.Coll, st.Shard, from, len(log)); len(un) > 0 {
+				r.s.Violate("C05", "resume_ignores_checkpoint", "stream %s of task %s is registered again without a position; unacknowledged messages %v of its domain are skipped", st.Key(), owner, un)
+			}
+			return
+		}
 	}
 	var skipped []int64
 	for i, e := range log {
-		if i < r.domainStart[key] || (e.Kind != "ins" && e.Kind != "del") || e.Coll != st.Coll || e.Shard != st.Shard {
+		if i < from || (e.Kind != "ins" && e.Kind != "del") || e.Coll != st.Coll || e.Shard != st.Shard {
 			continue
 		}
 		if e.Seq < st.SeekSeq || e.Ts <= st.SeekTs {
@@ -162,8 +160,64 @@ func (r *RigS) onRegistration(st *SimStream) {
 		}
 	}
 	if len(skipped) > 0 {
-		r.s.Violate("C05", "resume_skips_unacked", "stream %s registered at msg id %d / ts %d skips messages (tags %v) that the downstream never acknowledged", st.Key(), st.SeekSeq, st.SeekTs, skipped)
+		r.s.Violate("C05", "resume_skips_unacked", "stream %s of task %s registered at msg id %d / ts %d skips messages (tags %v) that the downstream never acknowledged", st.Key(), owner, st.SeekSeq, st.SeekTs, skipped)
 	}
+}
+
+func (r *RigS) droppedAtSource(coll int64) bool {
+	for _, lg := range r.mq.Logs {
+		for _, e := range lg {
+			if e.Kind == "dropc" && e.Coll == coll {
+				return true
+			}
+		}
+	}
+	return false
+}
+
+func domainKey(task string, tgt int, coll int64, shard int) string {
+	return fmt.Sprintf("%s|%d|%d|%d", task, tgt, coll, shard)
+}
+
+func parseDomainKey(key string) (task string, tgt int, coll int64, shard int) {
+	f := strings.Split(key, "|")
+	if len(f) != 4 {
+		return "", -1, 0, 0
+	}
+	task = f[0]
+	fmt.Sscanf(f[1], "%d", &tgt)
+	fmt.Sscanf(f[2], "%d", &coll)
+	fmt.Sscanf(f[3], "%d", &shard)
+	return
+}
+
+// ownerOf: the persisted task on the given downstream whose specification selects the collection ("" if none).
+func (r *RigS) ownerOf(tgt int, coll int64) string {
+	c := r.collByID[coll]
+	if c == nil {
+		return ""
+	}
+	tasks, err := r.storeTasks()
+	if err != nil {
+		return ""
+	}
+	owner := ""
+	for _, id := range SortedKeys(tasks) {
+		ti := tasks[id]
+		if ukeyOf(ti) != r.sc.Targets[tgt] {
+			continue
+		}
+		if _, sel := server.GetShouldReadFunc(ti)(&coremodel.DatabaseInfo{Name: c.DB}, collInfoOf(c.Name)); sel {
+			owner = id
+		}
+	}
+	if owner == "" {
+		// the record may not be written yet (create in flight): the request in flight names the task
+		if idx := r.st.InFlight; idx >= 0 && r.sc.Ops[idx].K == "create" && r.sc.Ops[idx].Spec != nil && r.sc.Ops[idx].Spec.tgt() == tgt && specNames(r.sc.Ops[idx].Spec, c.DB, c.Name) {
+			owner = r.sc.Ops[idx].Task
+		}
+	}
+	return owner
 }
 
 func (r *RigS) acked(tgt int, tag int64) bool {
@@ -252,8 +306,8 @@ func (r *RigS) checkCheckpoints() {
 			if shard < 0 || seq < 0 {
 				continue
 			}
-			key := fmt.Sprintf("%d/%d/%d", tgt, p.CollectionID, shard)
-			from, ok := r.domainStart[key]
+			key := domainKey(p.TaskID, tgt, p.CollectionID, shard)
+			from, ok := r.st.Domain[key]
 			if !ok {
 				continue // never streamed in this run: a start position written at create time
 			}
@@ -321,12 +375,12 @@ func (r *RigS) judgeResponse(o *SOpRec) {
 	case "pause":
 		if t != nil {
 			if o.Code == 200 {
-				if t.State == "Paused" && !t.Fuzzy {
+				if t.State == "Paused" && !t.Fuzzy && r.stateBefore(op.Task) == "Paused" && !r.st.Overlap[op.Task] {
 					r.s.Violate("C11", "pause_of_paused_accepted", "pause of the paused task %s answered 200", op.Task)
 				}
 				t.State = "Paused"
 				t.OpPause = true
-			} else if !faulty && !t.Fuzzy && t.State == "Running" && !strings.Contains(o.Msg, "the task has paused") {
+			} else if !faulty && !t.Fuzzy && t.State == "Running" && r.stateBefore(op.Task) == "Running" && !r.st.Overlap[op.Task] && !strings.Contains(o.Msg, "the task has paused") {
 				r.s.Violate("C11", "pause_rejected", "pause of the running task %s answered %d: %s", op.Task, o.Code, o.Msg)
 			}
 			t.Fuzzy = t.Fuzzy || faulty
@@ -336,12 +390,12 @@ func (r *RigS) judgeResponse(o *SOpRec) {
 	case "resume":
 		if t != nil {
 			if o.Code == 200 {
-				if t.State == "Running" && !t.Fuzzy {
+				if t.State == "Running" && !t.Fuzzy && r.stateBefore(op.Task) == "Running" && !r.st.Overlap[op.Task] {
 					r.s.Violate("C11", "resume_of_running_accepted", "resume of the running task %s answered 200", op.Task)
 				}
 				t.State = "Running"
 				t.OpPause = false
-			} else if !faulty && !t.Fuzzy && t.State == "Paused" && !r.targetFaulted() {
+			} else if !faulty && !t.Fuzzy && t.State == "Paused" && r.stateBefore(op.Task) == "Paused" && !r.st.Overlap[op.Task] && !r.targetFaulted() {
 				r.s.Violate("C11", "resume_rejected", "resume of the paused task %s answered %d: %s", op.Task, o.Code, o.Msg)
 			}
 			t.Fuzzy = t.Fuzzy || faulty
@@ -359,6 +413,21 @@ func (r *RigS) judgeResponse(o *SOpRec) {
 			}
 		}
 	}
+}
+
+// stateBefore: the in-memory state of the task in the snapshot taken right before the request in flight was issued
+// ("" when the request was issued at a non-quiescent point, where a background pause may have been under way).
+func (r *RigS) stateBefore(task string) string {
+	if !r.haveBefore {
+		return ""
+	}
+	var sn struct {
+		Tasks map[string]struct{ State string } `json:"tasks"`
+	}
+	if json.Unmarshal([]byte(r.snapBefore), &sn) != nil {
+		return ""
+	}
+	return sn.Tasks[task].State
 }
 
 func (r *RigS) targetFaulted() bool {
@@ -470,6 +539,10 @@ func (r *RigS) checkReload(tasks map[string]*meta.TaskInfo, sn server.VerifSnaps
 			r.s.Violate("C11", "reload_missing_task", "persisted task %s is not in memory after the restart", id)
 			continue
 		}
+		if t := r.st.Tasks[id]; t != nil {
+			t.State = mem.State
+			t.OpPause = false
+		}
 		if !clean {
 			continue
 		}
@@ -477,7 +550,10 @@ func (r *RigS) checkReload(tasks map[string]*meta.TaskInfo, sn server.VerifSnaps
 		if ti.DisableAutoStart {
 			want = "Paused"
 		}
-		if mem.State != want && !r.targetFaulted() {
+		if mem.State == "Paused" && want == "Running" && strings.HasPrefix(mem.Reason, "fail to read the message") {
+			// started, then stopped itself: the downstream was slower than the reader's retry budget (scheduler's choice)
+			r.s.Probe("task_paused_itself")
+		} else if mem.State != want && !r.targetFaulted() {
 			r.s.Violate("C11", "reload_state", "after the restart task %s (disable_auto_start=%v) is %s in memory, want %s (reason %q)", id, ti.DisableAutoStart, mem.State, want, mem.Reason)
 		}
 		if t := r.st.Tasks[id]; t != nil {
@@ -872,10 +948,11 @@ func (r *RigS) finalOracles() {
 	}
 	// first acknowledgements arrive in source order without gaps (a failing message is never skipped), and
 	// every message of the domain reaches the downstream when the owning task is still running (liveness)
-	for _, key := range SortedKeys(r.domainStart) {
-		var tgt, shard int
-		var coll int64
-		fmt.Sscanf(key, "%d/%d/%d", &tgt, &coll, &shard)
+	for _, key := range SortedKeys(r.st.Domain) {
+		dtask, tgt, coll, shard := parseDomainKey(key)
+		if tgt < 0 {
+			continue
+		}
 		set := r.ackedSet(tgt)
 		log := r.mq.Logs[srcPCh(shard)]
 		type ent struct {
@@ -884,7 +961,7 @@ func (r *RigS) finalOracles() {
 			ok    bool
 		}
 		var es []ent
-		for i := r.domainStart[key]; i < len(log); i++ {
+		for i := r.st.Domain[key]; i < len(log); i++ {
 			e := log[i]
 			if (e.Kind == "ins" || e.Kind == "del") && e.Coll == coll && e.Shard == shard {
 				c, ok := set[e.Tag]
@@ -902,17 +979,9 @@ func (r *RigS) finalOracles() {
 		if c == nil {
 			continue
 		}
-		owner := ""
-		for id, ti := range tasks {
-			if ti.MilvusConnectParam.URI != r.sc.Targets[tgt] {
-				continue
-			}
-			if _, sel := server.GetShouldReadFunc(ti)(&coremodel.DatabaseInfo{Name: c.DB}, collInfoOf(c.Name)); sel {
-				owner = id
-			}
-		}
-		if owner == "" {
-			continue
+		owner := dtask
+		if tasks[owner] == nil {
+			continue // the task was deleted
 		}
 		m := r.st.Tasks[owner]
 		if tasks[owner].State != meta.TaskStateRunning || m == nil {
@@ -924,6 +993,11 @@ func (r *RigS) finalOracles() {
 			if !e.ok {
 				lost = append(lost, e.tag)
 			}
+		}
+		if r.droppedAtSource(coll) {
+			// rows of a collection that is dropped at the source need not arrive before (or after) the replayed drop
+			s.Probe("liveness_skipped_dropped_collection")
+			continue
 		}
 		s.Probe("liveness_checked")
 		if len(lost) > 0 {
